@@ -10,13 +10,13 @@ from . import estimator as E
 LETTERS = ['a', 'b', 'c', 'd', 'e', 'f', 'g', 'h']
 ALL_CLASSES = ['BinaryCarver', 'ContinuousCarver', 'MulticlassCarver', 'Discretizer', 'QualitativeDiscretizer',
                'QuantitativeDiscretizer', 'ContinuousDiscretizer', 'OrdinalDiscretizer', 'CategoricalDiscretizer',
-               'StringDiscretizer', 'ChainedThenCarver']
+               'StringDiscretizer', 'ChainedThenCarver', 'ChainedDiscretizer']
 ACCEPTS = {
     'BinaryCarver': ('quanti', 'categ', 'ordinal'), 'ContinuousCarver': ('quanti', 'categ', 'ordinal'),
     'MulticlassCarver': ('quanti', 'categ', 'ordinal'), 'Discretizer': ('quanti', 'categ', 'ordinal'),
     'QualitativeDiscretizer': ('categ', 'ordinal'), 'QuantitativeDiscretizer': ('quanti',),
     'ContinuousDiscretizer': ('quanti',), 'OrdinalDiscretizer': ('ordinal',), 'CategoricalDiscretizer': ('categ',),
-    'StringDiscretizer': ('categ',), 'ChainedThenCarver': ('quanti', 'categ'),
+    'StringDiscretizer': ('categ',), 'ChainedThenCarver': ('quanti', 'categ'), 'ChainedDiscretizer': ('categ',),
 }
 
 
@@ -155,7 +155,9 @@ def random_object_spec(rng, cls=None, n=None, nfeat=None, degenerate=False):
         if first_lv is None:
             first_lv = lv
     spec = {'cls': cls, 'features': feats, 'y': target_for(rng, cls, first_lv, n)}
-    if cls == 'ChainedThenCarver':
+    if cls == 'ChainedDiscretizer':
+        feats.clear()               # only hierarchical features
+    if cls in ('ChainedThenCarver', 'ChainedDiscretizer'):
         # one hierarchical feature: leaves -> groups -> top (never-observed members included)
         leaves = ['Low-', 'Low', 'Low+', 'Medium-', 'Medium', 'Medium+', 'High-', 'High', 'High+', 'ALONE'][:rng.randint(5, 10)]
         lvl1 = {}
@@ -173,6 +175,9 @@ def random_object_spec(rng, cls=None, n=None, nfeat=None, degenerate=False):
             w[0] = 4
         pool = [v for v, k in zip(leaves, w) for _ in range(k)]
         hv = [None if rng.random() < 0.08 else rng.choice(pool) for _ in range(n)]
+        if cls == 'ChainedDiscretizer' and rng.random() < 0.5:
+            for i in rng.sample(range(n), min(3, n)):          # values outside the hierarchy (dropped with the missing ones)
+                hv[i] = rng.choice(['zz_unknown', 'yy_unknown'])
         feats['h0'] = {'kind': 'categ', 'values': hv, 'chained': True}
         spec['chained_orders'] = [lvl1, lvl2]
     mf = rng.choice([[1, 10], [3, 20], [1, 5], [1, 4], [3, 10], [1, 20]])
@@ -189,6 +194,14 @@ def random_object_spec(rng, cls=None, n=None, nfeat=None, degenerate=False):
         spec['float_dtype'] = 'float32'
     if rng.random() < 0.3:
         spec['extra_column'] = True
+    if cls in ('BinaryCarver', 'ContinuousCarver', 'MulticlassCarver') and rng.random() < 0.3:
+        # a dev sample: a bootstrap of the training rows in which one modality may become rare
+        idx = [rng.randrange(n) for _ in range(rng.randint(12, 40))]
+        classes = list(dict.fromkeys(spec['y']))
+        idx[:len(classes)] = [spec['y'].index(c) for c in classes]
+        spec['dev'] = {'features': {f: [d['values'][i] for i in idx] for f, d in feats.items()}, 'y': [spec['y'][i] for i in idx]}
+    if cls == 'ChainedDiscretizer':
+        spec['params']['unknown_handling'] = 'drop'
     if rng.random() < 0.15:      # user-chosen sentinels for missing / rare values
         spec['params']['str_nan'] = 'MISSING'
         spec['params']['str_default'] = 'RARE'
@@ -236,9 +249,19 @@ def probe_frames(rng, o, X, spec, count=4):
         rc = E.raw_column(o, f)
         if f in o.qualitative_features and rc in fr.columns and rng.random() < 0.8:
             new = rng.choice(['never_seen', 'ZZ9', 77, 77.0, '77', 3.5])
+            others = [g for g in kept if g != f and g in o.qualitative_features]
+            if others and rng.random() < 0.4:
+                # a value that is unseen here but is a known modality of another feature
+                known = [v for v in o.values_orders[rng.choice(others)].values() if isinstance(v, str) and v not in (E.STR_NAN, E.STR_DEFAULT)]
+                if known:
+                    new = rng.choice(known)
             col = list(fr[rc])
             col[rng.randrange(n)] = new
             fr[rc] = pd.Series(col, dtype=object)
+            if 'zz_extra' in fr.columns and rng.random() < 0.6:
+                ex = list(fr['zz_extra'])
+                ex[rng.randrange(n)] = new                      # the same value sits in a non-feature column too
+                fr['zz_extra'] = pd.Series(ex, dtype=object)
     frames.append(('unseen_categories', fr))
     # 3. a missing value injected in one feature
     fr = base_rows(n)
